@@ -29,9 +29,9 @@ pub fn lengths(level: u8) -> Vec<usize> {
 pub fn prop_values(id: u8) -> Vec<PVal> {
     match rc::prop_type(id).unwrap() {
         PTy::U8 => vec![PVal::U8(0), PVal::U8(1)],
-        PTy::U16 => vec![PVal::U16(1), PVal::U16(2), PVal::U16(65535)],
-        PTy::U32 => vec![PVal::U32(1), PVal::U32(65536), PVal::U32(u32::MAX)],
-        PTy::Vbi => vec![PVal::Vbi(1), PVal::Vbi(127), PVal::Vbi(128), PVal::Vbi(268_435_455)],
+        PTy::U16 => vec![PVal::U16(1), PVal::U16(2), PVal::U16(255), PVal::U16(256), PVal::U16(65535)],
+        PTy::U32 => vec![PVal::U32(1), PVal::U32(255), PVal::U32(256), PVal::U32(65535), PVal::U32(65536), PVal::U32(0x0100_0000), PVal::U32(u32::MAX)],
+        PTy::Vbi => vec![PVal::Vbi(1), PVal::Vbi(127), PVal::Vbi(128), PVal::Vbi(16383), PVal::Vbi(16384), PVal::Vbi(2_097_151), PVal::Vbi(2_097_152), PVal::Vbi(268_435_455)],
         PTy::Str => vec![PVal::Str(b"x".to_vec()), PVal::Str(vec![]), PVal::Str(s(128))],
         PTy::Bin => vec![PVal::Bin(b"\x00\xff".to_vec()), PVal::Bin(vec![]), PVal::Bin(s(128))],
         PTy::Pair => vec![PVal::Pair(b"k".to_vec(), b"v".to_vec()), PVal::Pair(vec![], vec![]), PVal::Pair(s(13), s(128))],
@@ -202,7 +202,18 @@ pub fn kinds(ver: Ver, w: usize, level: u8) -> Vec<Kind> {
             topics.push(dev!(format!("topic={n:?}"), move |a: &mut AP| if let AP::Publish { topic, .. } = a { *topic = n.as_bytes().to_vec() }));
         }
         fields.push(topics);
-        fields.push(lens.iter().map(|&l| dev!(format!("payload.len={l}"), move |a: &mut AP| if let AP::Publish { payload, .. } = a { *payload = s(l) })).collect());
+        let mut pls: Vec<Dev> = lens.iter().map(|&l| dev!(format!("payload.len={l}"), move |a: &mut AP| if let AP::Publish { payload, .. } = a { *payload = s(l) })).collect();
+        // payloads that put the Remaining Length of the base packet (QoS 0, topic "a") exactly on a boundary of
+        // its own encoding: last 1- / first 2-byte value, last 2- / first 3-byte value (thorough: 3 / 4)
+        let fixed = if v5 { 4usize } else { 3 };
+        let mut rls: Vec<usize> = vec![127, 128, 16383, 16384];
+        if level > 0 {
+            rls.extend([2_097_151usize, 2_097_152]);
+        }
+        for rl in rls {
+            pls.push(dev!(format!("payload.len={}(remaining-length={rl})", rl - fixed), move |a: &mut AP| if let AP::Publish { payload, .. } = a { *payload = s(rl - fixed) }));
+        }
+        fields.push(pls);
         fields.push(pid_field(max));
         if v5 {
             let mut pf = prop_field(Loc::Publish, level, set_props);
